@@ -406,16 +406,35 @@ fn do_yield(mut g: MutexGuard<'static, Option<Exec>>, me: usize, new: St, op: Op
 
 /// Scheduling point immediately before a visible operation of the calling thread.
 /// No-op for threads that are not part of a controlled execution.
-pub fn point(kind: OpKind, a: i64, b: i64) {
+pub fn point(kind: OpKind, a: i64, b: i64) -> usize {
     let me = TID.with(|t| t.get());
     if me == NONE {
-        return;
+        return usize::MAX;
     }
     let g = lock();
     if g.is_none() {
-        return;
+        return usize::MAX;
     }
     do_yield(g, me, St::AtPoint, Some((kind, a, b)));
+    let g = lock();
+    g.as_ref().map(|ex| ex.last_log[me]).unwrap_or(usize::MAX)
+}
+
+/// Attach results to the logged operation `idx` (returned by `point`) of the calling thread.
+pub fn set_result_at(idx: usize, r0: i64, r1: i64) {
+    let me = TID.with(|t| t.get());
+    if me == NONE || idx == usize::MAX {
+        return;
+    }
+    let mut g = lock();
+    if let Some(ex) = g.as_mut() {
+        if idx < ex.log.len() && ex.log[idx].thread as usize == me {
+            ex.log[idx].r0 = r0;
+            ex.log[idx].r1 = r1;
+            let h = mix(ex.thash[me], r0 as u64);
+            ex.thash[me] = mix(h, r1 as u64);
+        }
+    }
 }
 
 /// Log an operation of the calling thread without yielding.
